@@ -1,6 +1,6 @@
 (** Refs/GenTie.v — static tie of Refs/Model.v to the Go source: the event skeletons that RefsGen
     (tools/go2coq/refsgen.go) extracts on every run from fidRef.DecRef, notifyDelete, fidRef.markChildDeleted,
-    notifyNameChange, fidRef.renameChildTo, connState.stop (p9/server.go) and doWalk (p9/handlers.go)
+    notifyNameChange, fidRef.renameChildTo, connState.stop / LookupFID / InsertFID / DeleteFID (p9/server.go) and doWalk (p9/handlers.go)
     are equal to the table below, which was REVIEWED against the model function named in each comment.
 
     A skeleton lists the calls of the reference / path-tree / File operations in order, each with receiver
@@ -99,12 +99,30 @@ Definition expected_skeleton : list (string * list ev) := [
     (* #19 *) ("carry", "~$p1", ["#17"], ["(len($p2)!=0)"; "~$p1.mode.IsDir()"; "!#13"; "(#14.4==nil)"], ["for (i<len($p2))"; "fn#12:safelyRead"]);
     (* #20 *) ("IncRef", "~$p1", [], ["(len($p2)!=0)"; "~$p1.mode.IsDir()"; "!#13"; "(#14.4==nil)"], ["for (i<len($p2))"; "fn#12:safelyRead"]);
     (* #21 *) ("DecRef", "~$p1", [], ["(len($p2)!=0)"; "~$p1.mode.IsDir()"; "(#12!=nil)"], ["for (i<len($p2))"])
+  ]);
+  (* Model.v [lookup_fid] = [hold]: IncRef of the table's fidRef under fidMu, only if the fid is bound. *)
+  ("connState.LookupFID", [
+    (* #0 *) ("Lock", "$r.fidMu", [], [], []);
+    (* #1 *) ("Unlock", "$r.fidMu", [], [], ["defer"]);
+    (* #2 *) ("IncRef", "$r.fids[]", [], ["has($r.fids[])"], [])
+  ]);
+  (* Model.v [insert_fid]: IncRef of the new fidRef and table store under fidMu; the replaced fidRef, if any, is
+     DecRef'd AFTER fidMu is released (9140d2e: no backend Close under fidMu). *)
+  ("connState.InsertFID", [
+    (* #0 *) ("Lock", "$r.fidMu", [], [], []);
+    (* #1 *) ("IncRef", "$p1", [], [], []);
+    (* #2 *) ("store", "$r.fids", ["$p1"], [], []);
+    (* #3 *) ("Unlock", "$r.fidMu", [], [], []);
+    (* #4 *) ("DecRef", "$r.fids[]", [], ["has($r.fids[])"], [])
+  ]);
+  (* Model.v [delete_fid]: unbound => EBADF; else entry deleted under fidMu, DecRef after the unlock. *)
+  ("connState.DeleteFID", [
+    (* #0 *) ("Lock", "$r.fidMu", [], [], []);
+    (* #1 *) ("delete", "", ["$r.fids"; "$p0"], ["has($r.fids[])"], []);
+    (* #2 *) ("Unlock", "$r.fidMu", [], [], []);
+    (* #3 *) ("DecRef", "$r.fids[]", [], ["has($r.fids[])"], [])
   ])
 ].
-
-(** the generated table IS the reviewed one *)
-Theorem refs_skeleton_reviewed : refs_skeleton = expected_skeleton.
-Proof. vm_compute. reflexivity. Qed.
 
 (** ---- facts read off the generated table ---- *)
 Definition ev_name (e : ev) : string := match e with (n, _, _, _, _) => n end.
@@ -129,6 +147,32 @@ Fixpoint index_of (f : ev -> bool) (l : list ev) (i : nat) : option nat :=
   | [] => None
   | e :: r => if f e then Some i else index_of f r (S i)
   end.
+
+(** function by function first, so that a broken tie names the function that changed *)
+Lemma skeleton_DecRef : events_of "fidRef.DecRef" refs_skeleton = events_of "fidRef.DecRef" expected_skeleton.
+Proof. vm_compute. reflexivity. Qed.
+Lemma skeleton_notifyDelete : events_of "notifyDelete" refs_skeleton = events_of "notifyDelete" expected_skeleton.
+Proof. vm_compute. reflexivity. Qed.
+Lemma skeleton_markChildDeleted : events_of "fidRef.markChildDeleted" refs_skeleton = events_of "fidRef.markChildDeleted" expected_skeleton.
+Proof. vm_compute. reflexivity. Qed.
+Lemma skeleton_notifyNameChange : events_of "notifyNameChange" refs_skeleton = events_of "notifyNameChange" expected_skeleton.
+Proof. vm_compute. reflexivity. Qed.
+Lemma skeleton_renameChildTo : events_of "fidRef.renameChildTo" refs_skeleton = events_of "fidRef.renameChildTo" expected_skeleton.
+Proof. vm_compute. reflexivity. Qed.
+Lemma skeleton_stop : events_of "connState.stop" refs_skeleton = events_of "connState.stop" expected_skeleton.
+Proof. vm_compute. reflexivity. Qed.
+Lemma skeleton_LookupFID : events_of "connState.LookupFID" refs_skeleton = events_of "connState.LookupFID" expected_skeleton.
+Proof. vm_compute. reflexivity. Qed.
+Lemma skeleton_InsertFID : events_of "connState.InsertFID" refs_skeleton = events_of "connState.InsertFID" expected_skeleton.
+Proof. vm_compute. reflexivity. Qed.
+Lemma skeleton_DeleteFID : events_of "connState.DeleteFID" refs_skeleton = events_of "connState.DeleteFID" expected_skeleton.
+Proof. vm_compute. reflexivity. Qed.
+Lemma skeleton_doWalk : events_of "doWalk" refs_skeleton = events_of "doWalk" expected_skeleton.
+Proof. vm_compute. reflexivity. Qed.
+
+(** the generated table IS the reviewed one *)
+Theorem refs_skeleton_reviewed : refs_skeleton = expected_skeleton.
+Proof. vm_compute. reflexivity. Qed.
 
 (** C05 (fidRef.DecRef): when the count reaches zero and there is a parent, the fidRef is unregistered from
     the parent's node and the parent's reference is dropped - under exactly these two conditions, i.e. whatever
